@@ -49,8 +49,23 @@ def tmpl_ob(prop, oid, name, mode, **kw):
     return o
 
 
-def native_obligations(prop="C02", part="nat"):
+FLOAT_ARITH = ("addf", "subf", "mulf", "divf")
+STRMAX = 4
+
+
+def native_obligations(prop="C02", part="nat", strings=False):
     obs = []
+    # float operators: the emitted C applies the same C double operation to (a, b) in that order; arithmetic results are compared
+    # as bit patterns (contracts/spec_str.h spec_f64_bits), comparisons as the C comparison (NaN: unordered) - full domain
+    for name in T.FLOAT_OPS:
+        obs.append(tmpl_ob(prop, "%s.%s.%s" % (prop, part, name), name, MODE_VALUE))
+    if strings:
+        # string == / != by content; strcmp / strncmp / strnlen are CBMC's library models, unwound (--unwind 7 covers buffers of 5 bytes)
+        for name in T.STRING_OPS:
+            obs.append(tmpl_ob(prop, "%s.%s.%s" % (prop, part, name), name, MODE_VALUE, defines={"VERIF_TMPL": name, "VERIF_MODE": MODE_VALUE,
+                                                                                           "SPEC_STRMAX": STRMAX},
+                               unwind=STRMAX + 3, min_checks=10,
+                               strength="B(strings of length <= %d, arbitrary bytes, two distinct buffers)" % STRMAX))
     for name in T.OPERATORS:
         base = "%s.%s.%s" % (prop, part, name)
         chk = NO_SOVF if name in WRAP else None
